@@ -53,6 +53,8 @@ def plan(tier):
     scn_ = S.T1(shared=S.VM1_CHAIN[:2], params={"test_timeout": 3600}, D=(1.0, 20000.0, 30000.0)).variant("/timeout=3600s,D<=3000s")
     scn_.max_steps, scn_.max_vtime = 400000, 100000.0
     p.append((scn_, 1 if q else 2, 1))
+    # every pair of run settings on a setup + leaf selection
+    p += S.settings_pairs(lambda **kw: S.T1(shared=S.VM1_CHAIN[:2], D=(1.0, 15.0), **kw), tier)
     # configuration matrix: worker kinds x reuse scopes x slot bindings (same selection, default schedule and single deviations)
     p += S.config_matrix(S.T2, tier)
     p += [(scn.variant(",mt=2"), k, w) for scn, k, w in S.config_matrix(S.T2, tier, k_quick=0, k_thorough=1, extra_params={"max_tries": 2})]
